@@ -18,10 +18,12 @@ I == Named("Int")
 B == Named("Boolean")
 
 UTypes ==
-  [ Query |->
-      [ kind |-> "OBJECT", ifaces |-> <<>>, members |-> <<>>,
+  [ Query |->          \* (an operation root that implements an interface and is handed out under fields of that interface type)
+      [ kind |-> "OBJECT", ifaces |-> <<"Titled">>, members |-> <<>>,
         fields |->
           [ title |-> FD(S, <<>>),
+            me    |-> FD(Named("Titled"), <<>>),
+            mes   |-> FD(ListOf(Named("Titled")), <<>>),
             a     |-> FD(Named("A"), <<>>),
             nul   |-> FD(Named("A"), <<>>),
             items |-> FD(ListOf(Named("A")), <<>>),
@@ -44,6 +46,8 @@ UTypes ==
     Mutation |->
       [ kind |-> "OBJECT", ifaces |-> <<>>, members |-> <<>>,
         fields |-> [ set |-> FD(S, <<AD("s", S)>>), a |-> FD(Named("A"), <<>>) ] ],
+    Titled |->
+      [ kind |-> "INTERFACE", ifaces |-> <<>>, members |-> <<>>, fields |-> [ title |-> FD(S, <<>>) ] ],
     Named |->
       [ kind |-> "INTERFACE", ifaces |-> <<>>, members |-> <<>>,
         fields |-> [ name |-> FD(S, <<>>),
@@ -90,7 +94,7 @@ UTypes ==
 UNodeType == [ q |-> "Query", m |-> "Mutation", a1 |-> "A", a2 |-> "A", b1 |-> "B", p1 |-> "P" ]
 
 UData ==
-  [ q  |-> [ title |-> StrV("T"), a |-> NodeV("a1"), nul |-> NullV,
+  [ q  |-> [ title |-> StrV("T"), me |-> NodeV("q"), mes |-> ListV(<<NodeV("q"), NullV>>), a |-> NodeV("a1"), nul |-> NullV,
              items |-> ListV(<<NodeV("a1"), NullV, NodeV("a2")>>),
              named |-> ListV(<<NodeV("a1"), NodeV("b1")>>),
              any   |-> ListV(<<NodeV("b1"), NodeV("a2")>>),
